@@ -1852,6 +1852,9 @@ class GroupBy:
         """
         # check for nullity
         kwargs = dict(agg_func=agg_func, margins=margins, values=values)
+        if global_mask is not None:
+            # `&` would broadcast or label-align masks that are not aligned
+            _validate_input_lengths_and_indexes([subset_mask, global_mask])
         return self.agg(**kwargs, mask=subset_mask & global_mask) / self.agg(
             **kwargs, mask=global_mask
         )
